@@ -73,7 +73,7 @@ def build_script(sd, idx, override_seed=None, policy=None, sibling=None):
         desc["state"] = [x if r.random() < 0.5 else float(r.randint(100, 400)) for x in gen.state_of(desc)]
     state = gen.state_of(desc)
     _, mag = ref.rate_law(desc, state, None)
-    maxrate = max([m / (abs(s_) + 1.0) for m, s_ in zip(mag, state)] + [1e-3])
+    maxrate = ref.max_rate(desc, state)
     tiny = kind_ == "euler" and r.random() < 0.15
     if tiny:
         # amounts in the subnormal range (about 1e-313): the deterministic engine's arithmetic must be the same whatever ran
